@@ -52,11 +52,18 @@ def cases(tier, seed):
                 out.append({"n": 2, "vk": vk, "rows": [list(r) for r in rows], "obj": "qfull", "fmt": FMTS[idx % 4], "si": si,
                             "lat": [1, 2] if tier == "quick" else [0, 1, 2, 3]})
                 idx += 1
+    # constant integer-valued Jacobians / Hessians returned with an integer dtype
+    for vk in (["free", "boxed"], ["lower", "upper"]):
+        for rows in ([("affine", "eq0")], [("affine", "ranged"), ("affine", "eqoff")], [("affine", "upper")]):
+            for fmt in FMTS:
+                for si in range(6):
+                    out.append({"n": 2, "vk": vk, "rows": [list(r) for r in rows], "obj": "qdiag", "fmt": fmt, "si": si, "idtype": True,
+                                "lat": [1, 2] if tier == "quick" else [0, 1, 2, 3]})
     return out
 
 
 def build(case):
-    spec = S.mk(case["n"], case["obj"], [tuple(r) for r in case["rows"]], case["vk"], fmt=case["fmt"])
+    spec = S.mk(case["n"], case["obj"], [tuple(r) for r in case["rows"]], case["vk"], fmt=case["fmt"], idtype=case.get("idtype", False))
     sc = S.scalings(case["n"], len(case["rows"]), [0.625, -1.25, 0.75][: case["n"]])[case["si"]]
     return spec, sc
 
@@ -154,7 +161,7 @@ def run_case(case):
     nontriv = T.ns > 0 or bool(np.any(T.offset != 0)) or wsig not in ("none",)
     key = None
     if nontriv:
-        key = f"{[r[1] for r in case['rows']]}|{case['vk']}|{wsig}|{case['fmt']}"
+        key = f"{[r[1] for r in case['rows']]}|{case['vk']}|{wsig}|{case['fmt']}|{case.get('idtype', False)}"
     # one replay per distinct signature
     seen, vs = set(), []
     for v in viol:
